@@ -1068,6 +1068,13 @@ class Recompiler:
             prnt('  *o = (unsigned long long)((%s) | 0);'
                  '  /* check that %s is an integer */' % (name, name))
             if check_value is not None:
+                if not (-(1 << 64) < check_value < (1 << 64)):
+                    # not a valid C integer literal: the C compiler would
+                    # silently truncate it, defeating the check
+                    raise VerificationError(
+                        "%s '%s' is declared with the value %d, which does "
+                        "not fit any C integer type" % (category, name,
+                                                        check_value))
                 if check_value > 0:
                     check_value = '%dU' % (check_value,)
                 prnt('  if (!_cffi_check_int(*o, n, %s))' % (check_value,))
